@@ -68,6 +68,7 @@ def storesMem (subs : SubEnv) (fuel : Nat) (e : ILEffect) : Bool :=
 def calleeDisjoint (subs : SubEnv) (fuel : Nat) (name : String) (L : List String) : Bool :=
   match lookupS name subs with
   | some (_, body) => L.all (fun n => !(writtenLocals subs fuel body).contains n)
-  | none => true
+  -- no compiled body: the specification-level routines; `get_usr_field` sets `ret_val`, `set_usr_field` no local
+  | none => !(name == "get_usr_field" && L.contains "ret_val")
 
 end Rzil
